@@ -80,13 +80,6 @@ class MyPyAstVisitor:
         wildcard_imports: list[WildcardImport] = []
         docstring = ""
 
-        # We don't need to check functions, classes and assignments, since the ast walker will already check them
-        child_definitions = [
-            _definition
-            for _definition in get_mypyfile_definitions(node)
-            if _definition.__class__.__name__ not in {"FuncDef", "Decorator", "ClassDef", "AssignmentStmt"}
-        ]
-
         # Imports
         for import_ in node.imports:
             # An import inside a function or a class does not bind a name of the module, so it cannot reexport anything
@@ -114,11 +107,10 @@ class MyPyAstVisitor:
                     WildcardImport(import_.id),
                 )
 
-        # Search for a Docstring
-        for definition in child_definitions:
+        # The docstring of a module is its first statement. A later string (e.g. the docstring of an attribute) is none.
+        for definition in get_mypyfile_definitions(node)[:1]:
             if isinstance(definition, mp_nodes.ExpressionStmt) and isinstance(definition.expr, mp_nodes.StrExpr):
                 docstring = definition.expr.value
-                break
 
         # Create module id to get the full path
         id_ = node.fullname.replace(".", "/")
